@@ -43,6 +43,7 @@ static Plan gen_sorter(const std::string &prop, const std::string &tier, uint64_
 	uint64_t d = r.below(10);
 	size_t mm = d < 2 ? 1 : d < 7 ? 16 + r.below(total / (1 + r.below(12)) + 32) : d < 9 ? total + 1000 : 0;
 	p.seti("maxmem", mm);
+	p.seti("tmplate", r.chance(1, 5) ? 1 : 0);
 	p.seti("maxmem_zero", mm == 0 && r.chance(1, 3) ? 1 : 0);	// ask for 0 bytes: clamped to the minimum
 	p.seti("pool", r.chance(1, 2) ? -1 : (long long)(r.chance(1, 10) ? 5 + r.below(4) : r.below(5)));
 	p.set("sched", sched_cfg_gen(r, 1200));
@@ -81,6 +82,14 @@ static RunResult exec_sorter(const Plan &p)
 		s.tmpdir = std::string(shape == 4 ? "./" : "") + real_tmpdir.substr(dir.size() + 1);
 	}
 	res.probes[std::string("tmpdir-shape-") + std::to_string(shape)]++;
+	if (p.geti("tmplate", 0) && (shape == 0 || shape == 1)) {
+		// the directory does not exist yet when the option is set; it is created before the first spill
+		std::string late = real_tmpdir + "/made-later";
+		s.late_mkdir = late;
+		s.tmpdir = late + (shape == 1 ? "/" : "");
+		real_tmpdir = late;
+		res.probes["tmpdir-created-after-the-option-was-set"]++;
+	}
 	s.max_mem = (size_t)p.geti("maxmem", 0);
 	s.set_zero = p.geti("maxmem_zero", 0) != 0;
 	s.finish = (int)(p.geti("finish", 0) % 2);
